@@ -11,18 +11,15 @@ variable {V : Type}
 
 /-- Everything after the insertion phase. -/
 def buildRest (variant : Variant) (cfg : Cfg) (mapper : Mapper) (t : Trie V) (len : Nat) :
-    Except BuildErr (DA V) := do
-  if len = 0 then throw .invalidArgument
-  if variant == .bytewise && len > u24Max then throw .automatonScale
-  let ns := t.flatten
+    Except BuildErr (DA V) :=
+  if len = 0 then .error .invalidArgument else
+  if variant = .bytewise ∧ len > u24Max then .error .automatonScale else
   let nfa := buildNfa t (cfg.kind != 0)
-  let (fail, opos) := nfaArrays t nfa
-  let outs := nfa.out.outs
-  let states ← match variant with
-    | .bytewise => buildBytewise cfg ns fail opos
-    | .charwise => buildCharwise cfg mapper ns fail opos
-  return { variant := variant, states := states, outputs := outs, mapTable := mapper.table,
-           alphaSize := mapper.alphaSize, kind := cfg.kind, numStates := ns.size - 1 }
+  match buildLayout variant cfg mapper t nfa with
+  | .error e => .error e
+  | .ok states =>
+    .ok { variant := variant, states := states, outputs := nfa.out.outs, mapTable := mapper.table,
+          alphaSize := mapper.alphaSize, kind := cfg.kind, numStates := t.size }
 
 def mapperFor (variant : Variant) (P : List (LPat V)) : Mapper :=
   match variant with
@@ -35,35 +32,22 @@ theorem buildDA_eq (variant : Variant) (cfg : Cfg) (P : List (LPat V)) :
       match NfaAcc.init.addAll (cfg.kind == 2) P with
       | .error e => .error e
       | .ok acc => buildRest variant cfg (mapperFor variant P) acc.trie acc.len := by
-  unfold buildDA buildRest mapperFor
-  by_cases h0 : cfg.nfb = 0
-  · simp [h0, bind, Except.bind, throw, throwThe, MonadExceptOf.throw]
-  · cases NfaAcc.init.addAll (cfg.kind == 2) P with
-    | error e => simp [h0, bind, Except.bind]
-    | ok acc =>
-      cases variant <;>
-      simp [h0, bind, Except.bind, throw, throwThe, MonadExceptOf.throw, pure, Except.pure]
+  rfl
 
 theorem buildRest_ok (variant : Variant) (cfg : Cfg) (m : Mapper) (t : Trie V) (len : Nat)
     (da : DA V) (h : buildRest variant cfg m t len = .ok da) :
-    len ≠ 0 ∧ da.kind = cfg.kind ∧ da.variant = variant ∧ da.numStates = t.flatten.size - 1 := by
+    len ≠ 0 ∧ da.kind = cfg.kind ∧ da.variant = variant ∧ da.numStates = t.size := by
   unfold buildRest at h
-  by_cases hl : len = 0
-  · simp [hl, bind, Except.bind, throw, throwThe, MonadExceptOf.throw] at h
-  · refine ⟨hl, ?_⟩
-    cases variant <;>
-    simp only [hl, bind, Except.bind, throw, throwThe, MonadExceptOf.throw, pure, Except.pure,
-      if_false] at h
-    · split at h
+  split at h
+  · cases h
+  · rename_i hl
+    refine ⟨hl, ?_⟩
+    split at h
+    · cases h
+    · simp only at h
+      split at h
       · cases h
-      · split at h
-        · cases h
-        · cases h; exact ⟨rfl, rfl, rfl⟩
-    · split at h
-      · cases h
-      · split at h
-        · cases h
-        · cases h; exact ⟨rfl, rfl, rfl⟩
+      · cases h; exact ⟨rfl, rfl, rfl⟩
 
 /-- Success of the pipeline decomposes into: enough free blocks requested, successful insertion
 of all patterns, at least one registered pattern, success of everything after insertion. -/
@@ -106,7 +90,7 @@ theorem buildDA_of_buildTrie_err (variant : Variant) (cfg : Cfg) (P : List (LPat
     by_cases hl : acc.len = 0
     · simp only [hl, if_true] at he
       cases he
-      simp [buildRest, hl, bind, Except.bind, throw, throwThe, MonadExceptOf.throw]
+      simp [buildRest, hl]
     · simp [hl] at he
 
 theorem buildDA_invalid_err (variant : Variant) (cfg : Cfg) (P : List (LPat V)) (h : keysOk P)
@@ -127,31 +111,6 @@ theorem buildDA_kind_variant (variant : Variant) (cfg : Cfg) (P : List (LPat V))
   have := buildRest_ok _ _ _ _ _ _ hr
   exact ⟨this.2.1, this.2.2.1⟩
 
-mutual
-theorem Trie.flattenInto_spec : (t : Trie V) → (arr : Array (FNode V)) →
-    (t.flattenInto arr).1 = arr.size ∧ (t.flattenInto arr).2.size = arr.size + t.size
-  | .node out kids, arr => by
-    have ih := Kids.flattenInto_size kids (arr.push ⟨#[], out⟩) #[]
-    simp only [Trie.flattenInto, Trie.size, Array.size_setIfInBounds, Array.set!_eq_setIfInBounds,
-      ih, Array.size_push]
-    exact ⟨trivial, by omega⟩
-theorem Kids.flattenInto_size : (k : Kids V) → (arr : Array (FNode V)) →
-    (es : Array (Nat × Nat)) → (k.flattenInto arr es).2.size = arr.size + k.size
-  | .nil, arr, es => by simp [Kids.flattenInto, Kids.size]
-  | .cons l t r, arr, es => by
-    have h1 := Trie.flattenInto_spec t arr
-    have h2 := Kids.flattenInto_size r (t.flattenInto arr).2 (es.push (l, (t.flattenInto arr).1))
-    simp only [Kids.flattenInto, Kids.size, h2, h1.2]
-    omega
-end
-
-theorem Trie.flatten_size (t : Trie V) : t.flatten.size = t.size + 1 := by
-  cases t with
-  | node out kids =>
-    simp only [Trie.flatten, Trie.kids, Trie.size, Array.set!_eq_setIfInBounds,
-      Array.size_setIfInBounds, Kids.flattenInto_size]
-    simp; omega
-
 theorem buildDA_numStates (variant : Variant) (cfg : Cfg) (P : List (LPat V)) (h : keysOk P)
     (da : DA V) (hb : buildDA variant cfg P = .ok da) (L : List (List Nat)) (hL : L.Nodup)
     (hmem : ∀ u, u ∈ L ↔
@@ -159,8 +118,7 @@ theorem buildDA_numStates (variant : Variant) (cfg : Cfg) (P : List (LPat V)) (h
     da.numStates = 1 + L.length := by
   obtain ⟨_, acc, _, _, ht, hr⟩ := buildDA_ok_decomp variant cfg P da hb
   have := (buildRest_ok _ _ _ _ _ _ hr).2.2.2
-  rw [this, Trie.flatten_size, buildTrie_size cfg.kind P h acc.trie ht L hL hmem]
-  omega
+  rw [this, buildTrie_size cfg.kind P h acc.trie ht L hL hmem]
 
 /-! ## Order independence -/
 
@@ -251,7 +209,6 @@ theorem buildDA_perm (variant : Variant) (cfg : Cfg) (hk : cfg.kind ≠ 2) (P P'
 #print axioms buildDA_ok_valid
 #print axioms buildDA_invalid_err
 #print axioms buildDA_kind_variant
-#print axioms Trie.flatten_size
 #print axioms buildDA_numStates
 #print axioms Mapper.build_perm
 #print axioms buildDA_perm
